@@ -85,7 +85,7 @@ func rawStateTime(db *db19.Database, off uint64) int64 {
 // state timestamp exactly and makes them strictly increasing with generated
 // gaps (>= 1 ms) without sleeping. rapid itself runs outside the bubble.
 func TestC19(t *testing.T) {
-	rec := ev.New("C19", "lifecycle histories (admin requests, transactions, data containing the state marker bytes, close+reopen) with 2..12 state records written at generated fake-clock gaps of 1..50 ms in a per-case synctest bubble; after the history (and between its halves) a read transaction gets up to 20 requests: Asof(t) for t in {t_i, t_i-1, t_i+1, midpoints, before the first state, now, future}, Asof(-1), Asof(+1), Asof(0). Non-trivial: >= 3 state records with pairwise different dumps among neighbours and a step sequence that changes direction; distinct = history text + request list.")
+	rec := ev.New("C19", "lifecycle histories (admin requests, transactions, data containing the state marker bytes, close+reopen) with 2..12 state records written at generated fake-clock gaps of 1..50 ms in a per-case synctest bubble; after the history (and between its halves) a read transaction gets up to 20 requests: Asof(t) for t in {t_i, t_i-1, t_i+1, midpoints, before the first state, now, future}, Asof(-1), Asof(+1), Asof(0). Non-trivial: >= 3 state records with pairwise different dumps among neighbours and a step sequence that changes direction; distinct = history text + request list. Sub-check 'scan' (3000 quick / 60 000 thorough cases): Stor.FirstOffset / Stor.LastOffset (what NextState / PrevState / stateAsof use to find state records) on heap stores with 32..512 byte chunks filled by Alloc with 2..41 blocks of marker-like filler and markers at generated positions (block start/end favoured; the real 8-byte state marker or a 1..7 byte prefix); every occurrence o is walked with FirstOffset(o), FirstOffset(o+1), LastOffset(o), LastOffset(o+1), plus offsets 0, size, every chunk boundary and boundary-1 and 12 random offsets, against a flat model of the chunks; non-trivial there: >= 3 chunks, >= 2 occurrences, a forward scan that starts inside a chunk and finds its answer in a later chunk, and a backward scan that crosses a chunk.")
 	rec.Assumptions = []string{
 		"oracle: the dump through the moved read transaction equals the dump of the live database recorded when that state was written; expected state index computed from the recorded (fake) times",
 		"the returned time is asserted for past states (== recorded time, which is also read back raw from the file); for 'now or later' only the contents are asserted",
@@ -98,6 +98,7 @@ func TestC19(t *testing.T) {
 			jr.done()
 		}
 	}()
+	c19Scan(t, rec)
 	flag.Set("rapid.shrinktime", "5s") // rapid cannot shrink these interactive histories much; TestMinimize does
 	rt.Check(t, rec, "asof", 500, 4000, func(rt_ *rapid.T) {
 		inBubble(t, func() { c19Case(rt_, rec, jr) })
